@@ -12,7 +12,9 @@ META = dict(
                "primitives, key-value insert / insert-or-replace / reserve / remove_keys / remove_all_values, index insert with back-fill / remove - the "
                "commands it pushed, rolled back from the post-state or any observationally equal well-formed state, give a state observationally equal to "
                "the pre-state; the re-inserted element gets its old id because the slot free list is LIFO - proved by a refinement of Graph.v's four slot "
-               "arrays to an abstract graph under an explicit array well-formedness invariant that every operation preserves), C13_undo_congruence, and "
+               "arrays to an abstract graph under an explicit array well-formedness invariant that every operation preserves), C13_step_inverse_remove_node_db "
+               "(remove_node_db = alias removal, edge removals with their values, removal of the then isolated node, is a sequence of these primitives), "
+               "C13_undo_congruence, and "
                "C13_rollback_restores (every finite sequence of primitives executed from a well-formed state with empty undo stack is undone by rollback: same "
                "elements/ids/endpoints, property sets, aliases, index contents, node count, adjacency up to order, same degree counters and same ids handed out "
                "afterwards; side conditions of the primitives are explicit: a removed/replaced indexed pair is listed in its index, insert_key_value inserts a "
